@@ -204,10 +204,12 @@ def _forms():
            Op("ET"), N(1), N(1), Op("m"), N(4), N(1), Op("l"), Op("S"), N(2), N(0), N(0), N(2), N(3), N(3), Op("cm")]
     fm3 = [Op("BT"), Nm("F1"), N(10), Op("Tf"), S(b"B"), Op("Tj"), Op("ET"), Nm("Fm1"), Op("Do"), Nm("Fm3"), Op("Do"), Nm("Fm2"), Op("Do"),
            Op("BT"), Nm("F1"), N(10), Op("Tf"), S(b"A"), Op("Tj"), Op("ET")]
+    fm5 = [N(1), N(0), N(1), Op("sc"), N(0), N(1), N(1), N(0), Op("SC"), N(0), N(0), N(2), N(2), Op("re"), Op("B")]
     fm4 = [N(1), N(0), N(0), Op("rg"), Op("BT"), Nm("F1"), N(10), Op("Tf"), S(b"AB"), Op("Tj"), Op("ET")]
     return {"Fm1": {"m": [2, 0, 0, 2, 10, 10], "body": fm1, "own": True, "xo": {}, "fo": {"F1": "F1"}},
             "Fm2": {"m": [1, 0, 0, 1, 0, 0], "body": fm2, "own": False, "xo": {}, "fo": {}},
             "Fm3": {"m": [1, 0, 0, 1, 5, 0], "body": fm3, "own": True, "xo": {"Fm1": "Fm4", "Fm3": "Fm4"}, "fo": {"F1": "F1b"}},
+            "Fm5": {"m": [1, 0, 0, 1, 0, 0], "body": fm5, "own": False, "xo": {}, "fo": {}},
             "Fm4": {"m": [1, 0, 0, 1, 0, 7], "body": fm4, "own": False, "xo": {}, "fo": {}, "page": False}}
 
 
